@@ -32,6 +32,27 @@ def load(text: str, globs: dict | None = None, prefix: str = "vfgen") -> types.M
     return mod
 
 
+def load_catching(text: str, globs: dict | None = None, prefix: str = "vfgen"):
+    """like load(), but an exception raised while executing the module body is returned: (module, exception or None)"""
+    i = next(_n)
+    name = f"{prefix}_{i}"
+    fname = f"/vfgen/{name}.py"
+    if not text.endswith("\n"):
+        text += "\n"
+    linecache.cache[fname] = (len(text), None, text.splitlines(keepends=True), fname)
+    mod = types.ModuleType(name)
+    mod.__file__ = fname
+    if globs:
+        mod.__dict__.update(globs)
+    sys.modules[name] = mod
+    code = compile(text, fname, "exec")  # SyntaxError propagates: a harness problem
+    try:
+        exec(code, mod.__dict__)
+    except Exception as e:  # noqa: BLE001
+        return mod, e
+    return mod, None
+
+
 def unload(mod: types.ModuleType):
     linecache.cache.pop(getattr(mod, "__file__", ""), None)
     sys.modules.pop(mod.__name__, None)
